@@ -331,6 +331,37 @@ def run(chk, ctx) -> None:
                    got=err or sorted(g), want=sorted(want))
         rx, raw = pattern_of(sev, ci.name, 'HAND')
         chk.ob('C20.patterns', f'{ci.name}.HAND', rx is not None and not unmatchable(rx), ci.loc, 'the pattern that splits a file into hands exists')
+        # one notion of "a chip amount" per site: stacks, antes, blinds, bets and caps are matched by the same character class
+        # (a site whose stacks may carry thousands separators while its bets may not reads `bets $2,500` as 2)
+        amount_classes = {}
+        for attr in list(GROUPS) + ['CAP']:
+            rx2, _ = pattern_of(sev, ci.name, attr)
+            if rx2 is None or unmatchable(rx2):
+                continue
+            try:
+                parsed = sre_parse.parse(rx2)
+            except re.error:
+                continue
+            gi = parsed.state.groupdict
+
+            def walk(items):
+                for op, av in items:
+                    if op is sre_c.SUBPATTERN:
+                        name = next((k for k, v in gi.items() if v == av[0]), None)
+                        if name in ('starting_stack', 'ante', 'blind_or_straddle', 'amount', 'cap'):
+                            amount_classes.setdefault(str(av[3]), set()).add(f'{attr}:{name}')
+                        walk(av[3])
+                    elif op in (sre_c.MAX_REPEAT, sre_c.MIN_REPEAT):
+                        walk(av[2])
+                    elif op is sre_c.BRANCH:
+                        for b in av[1]:
+                            walk(b)
+                    elif op in (sre_c.ASSERT, sre_c.ASSERT_NOT):
+                        walk(av[1])
+            walk(parsed)
+        chk.ob('C20.patterns', f'{ci.name}:amount_class', len(amount_classes) == 1, ci.loc,
+               'every pattern of a site matches chip amounts with the same character class (stacks, antes, blinds, bets, caps alike)',
+               got={k[:70]: sorted(v) for k, v in amount_classes.items()} if len(amount_classes) != 1 else 'one class')
         # variable tables
         vs = sev.class_attr(ci.name, 'VARIABLES')
         if isinstance(vs, dict):
